@@ -5,12 +5,13 @@
 (* sequence of at most MaxOffers offers (duplicates included), then are    *)
 (* merged / added / rebuilt in every possible way.  Checks that the state  *)
 (* is a function of the set offered, the merge laws, input preservation    *)
-(* and the serialisation round trip; a few ASSUMEs pin Idx/Rank on         *)
+(* and the serialisation round trip (also from a byte form kept while the  *)
+(* counter went on: Snap / BuildSnap); a few ASSUMEs pin Idx/Rank on       *)
 (* concrete hashes.                                                        *)
 (***************************************************************************)
 EXTENDS HLL
 
-CONSTANTS MaxOffers, MaxRankMC, MaxDerived
+CONSTANTS MaxOffers, MaxRankMC, MaxDerived, MaxSnaps, SnapOf
 
 P == 2
 Items == (0..3) \X (1..MaxRankMC)
@@ -22,6 +23,7 @@ mcvars == <<vars, noffers>>
 MCInit == /\ ctr = [c \in Base |-> [p |-> P, reg |-> NoRegs]]
           /\ seen = [c \in Base |-> {}]
           /\ lastEst = <<>>
+          /\ snap = <<>>
           /\ noffers = 0
 
 NextId == SetMax(Ids) + 1
@@ -36,6 +38,9 @@ MCNext ==
         \/ \E c, o \in Ids : Merge(c, <<o>>, NextId)
         \/ \E c, o1, o2 \in Base : Merge(c, <<o1, o2>>, NextId)
         \/ \E c \in Ids : Build(NextId, c)
+        \/ \E s \in DOMAIN snap : BuildSnap(NextId, s)      \* rebuild from a byte form kept since earlier
+  \/ /\ Cardinality(DOMAIN snap) < MaxSnaps /\ UNCHANGED noffers
+     /\ \E c \in SnapOf : Snap(Cardinality(DOMAIN snap) + 1, c) \* at any moment a caller may keep GetBytes(c)
   \/ /\ UNCHANGED noffers
      /\ \E c \in Ids \ Base, o \in Ids : AddAll(c, o)
 
